@@ -45,6 +45,9 @@ type Program struct {
 	concTypes  []types.Type
 	SkippedSpecs []string
 	Theorems   []*TheoremOb
+	baseLocals  map[string][]localEntry
+	renameCache map[string]map[string]string
+	Renames     []string // local variables of contracted functions that were translated from their baseline names
 }
 
 // goEnv: the environment for `go list` on /repo (offline, go1.26.8, module mode).
